@@ -297,7 +297,17 @@ class Ctx:
         ob.path = "/".join(self.labels[-12:])
         if isinstance(goal, bool):
             goal = z3.BoolVal(goal)
-        verdict, secs, model, detail = self.st.prove(goal)
+        seen = self.unit.__dict__.setdefault("_refuted_names", {})
+        if name in seen and not isinstance(goal, bool) and not z3.is_true(goal):
+            # already refuted on an earlier path of this unit: one counter-model is enough, the verdict cannot improve;
+            # a cheap attempt is still made so that an instance that does hold is recorded as such
+            verdict, secs, model, detail = self.st.prove_quick(goal)
+            if verdict != "proved":
+                verdict, model, detail = "refuted", None, f"not re-examined in full: refuted on an earlier path ({seen[name]})"
+        else:
+            verdict, secs, model, detail = self.st.prove(goal)
+            if verdict == "refuted":
+                seen[name] = "/".join(self.labels[-6:])
         ob.verdict, ob.seconds, ob.backend = verdict, secs, (detail if verdict == "proved" else "z3")
         if verdict != "proved":
             ob.goal_txt = str(z3.simplify(goal))[:2000]
@@ -525,6 +535,9 @@ class Interp:
         if is_ref(obj):
             cn = obj.ty.cls
             ci = CLASSES[cn]
+            ov = self.ctx.unit.override_method(self, obj, attr)  # ghost bookkeeping around a modelled container method
+            if ov is not NotImplemented:
+                return ov
             m = self.lib.find_model_method(ci, attr)
             if m is not None:
                 return Builtin(f"{cn}.{attr}", lambda ip, *a, **k: m(ip, obj, *a, **k))
@@ -1267,6 +1280,8 @@ class Interp:
         return {ast.Lt: z3.Or(inf, ta < b.t), ast.LtE: z3.Or(inf, ta <= b.t), ast.Gt: z3.And(z3.Not(inf), ta > b.t), ast.GtE: z3.And(z3.Not(inf), ta >= b.t)}[o]
 
     def equal(self, a, b, identity=False):
+        if (isinstance(a, tuple) and b is None) or (a is None and isinstance(b, tuple)):
+            return False  # a tuple is never None
         if isinstance(a, tuple) and isinstance(b, tuple):
             if len(a) != len(b):
                 return False
